@@ -465,6 +465,21 @@ def generate_facts(repo):
       before(trf, 'return false;', 'complete_task(&mut self.fsync_task', 'try_run_fsync_task') and
       before(trf, 'complete_task(&mut self.fsync_task', 'tokio::spawn(', 'try_run_fsync_task') and str(trf).count('return false;') == 1), 'src/storage/observer_worker.rs',
       'try_run_fsync_task: a sync request is dropped only while a task exists AND the flag is up; otherwise the old task is awaited and a new one is spawned (Conc/SyncHint.v worker gate K2a/K2b)')
+    blobcore = S('src/blob/core.rs')
+    rg = Lazy(lambda: body_with(blobcore, 'try_regenerate_index', ['raw_records']))
+    F('REGENERATION_KEEPS_SCAN_ORDER', lambda: (before(rg, 'raw_r.load()', 'for header in headers', 'try_regenerate_index') and
+      before(rg, 'for header in headers', 'self.index.push(&key, header)', 'try_regenerate_index') and
+      re.search(r'headers\s*\.\s*(sort|reverse|dedup|retain|rev\(\))', str(rg)) is None and 'sort' not in str(rg)), 'src/blob/core.rs',
+      'try_regenerate_index: the headers are pushed into the index in the order of the scan (equal timestamps of a key are ranked by their order in the blob: Storage/Model.v regenerate)')
+    dc = Lazy(lambda: body_with(core, 'delete_core', ['delete_in_active']))
+    F('DELETE_ACTIVE_BEFORE_CLOSED', lambda: (re.search(r'delete_in_active\([^;]*\)\s*\.await\s*\?\s*;', str(dc), re.S) is not None and
+      before(dc, 'delete_in_active(', 'delete_in_closed(', 'delete_core') and 'join!' not in str(dc) and 'try_join' not in str(dc)), 'src/storage/core.rs',
+      'delete_core: the active blob first; its failure ends the delete before any closed blob is touched (Storage/Fault.v delete_faulty)')
+    hf = S('src/filter/hierarchical.rs')
+    ac = Lazy(lambda: body_with(hf, 'add_child', ['init_filter_from_cow']))
+    F('GROUP_FILTER_INITIALISED_ONLY_WHEN_EMPTY', lambda: (re.search(r'if\s+node\.children\.is_empty\(\)\s*\{\s*Self::init_filter_from_cow', str(ac)) is not None and
+      str(ac).count('init_filter_from_cow') == 1), 'src/filter/hierarchical.rs',
+      'HierarchicalFilters::add_child: a group filter is (re)initialised from a child only when the group has no child yet; a filter that was given up (None) stays None (Filter/Hier.v push)')
     pm = Lazy(lambda: body_with(ow, 'process_msg', ['OperationType::CloseActiveBlob']))
     logged = all(re.search(x + r'\s*\.await\s*\?', str(pm)) is None for x in
                  (r'close_active_blob\(\)', r'create_active_blob\(\)', r'restore_active_blob\(\)', r'update_active_blob\(&self\.inner\)', r'try_update_active_blob\(\)'))
